@@ -580,3 +580,33 @@ def p_c10(ctx):
     viols, cov = expr_family(ctx, {"C10"})
     finish(ctx, viols, cov, assumptions=["expressions are well typed for their constraint (ill-typed sub-expressions assert nothing)",
                                          "origins are compared by (file, exact range, address); constraints of origins are not part of the statement"])
+
+
+@pipeline("C11")
+def p_c11(ctx):
+    # (1) model: the implementation-shaped lookups (deep walk, InnermostAtPos, Origins.Match) against the one relation Resolve;
+    #     cases printed and replayed through the real Decoder lookups
+    cases, n = tlc_cases(ctx, "MC_Refs.tla", "MC_Refs.cfg", "mcrefs", timeout=3000)
+    sens(ctx, "MC_Refs.tla", "MC_Refs_strict.cfg", "mcrefsstrict")   # the stricter reading is violated: the model is not vacuous
+    p = ctx.run_hx(["lookup", "-cases", cases, "-out", os.path.join(ctx.work, "lc")])
+    n1 = json.loads(p.stdout.strip().splitlines()[-1])["events"]
+    # (2) real worlds: every collected origin of every path (multi-path workspace with path / implied / direct origins, unreadable path)
+    p = ctx.run_hx(["lookup", "-worlds", "kinds,tf,hostile,mods,modsbroken", "-out", os.path.join(ctx.work, "lw")])
+    n2 = json.loads(p.stdout.strip().splitlines()[-1])["events"]
+    files = sorted(glob.glob(os.path.join(ctx.work, "lc.*.ndjson")) + glob.glob(os.path.join(ctx.work, "lw.*.ndjson")))
+    bad, events = ctx.validate_traces("TraceSession.tla", "TraceSession.cfg", files)
+    viols = []
+    for b in bad:
+        if b["prop"] != "C11":
+            continue
+        evs = [json.loads(x) for x in open(b["file"])]
+        e = evs[b["l"] - 1]
+        viols.append({"what": b["what"], "replay": {"pipeline": "lookup", "world": world_of(evs, b["l"]), "event": e}})
+    samples = [json.loads(x) for x in open(files[-3]).read().splitlines() if '"Lookup"' in x][:2]
+    finish(ctx, viols, {
+        "evaluations": n1 + n2, "distinct_nontrivial": n + 5,
+        "rule": "case = one world of MC_Refs (nested targets with/without definition range, typed/untyped, dynamic; 1-2 origins with/without constraints) stored in a real PathContext, or one of 5 "
+                "real worlds (incl. a 3-path workspace with path, implied and direct origins, a path sharing its directory with another, an unreadable path); go-to-definition is asked at start / middle / "
+                "last byte of every origin and find-references at the definition of every reported declaration",
+        "traces_validated_against_impl": len(files), "trace_events": events, "samples": samples, "exhaustive": False},
+        assumptions=["the inverse property constrains declarations that have a definition range (DESIGN 5/C11); the stricter reading is shown to fail on the model and is not asserted"])
